@@ -990,8 +990,9 @@ func (p *sshFxpWritePacket) UnmarshalBinary(b []byte) error {
 
 type sshFxpMkdirPacket struct {
 	ID    uint32
-	Flags uint32 // ignored
+	Flags uint32
 	Path  string
+	Attrs any
 }
 
 func (p *sshFxpMkdirPacket) id() uint32 { return p.ID }
@@ -1007,7 +1008,17 @@ func (p *sshFxpMkdirPacket) MarshalBinary() ([]byte, error) {
 	b = marshalString(b, p.Path)
 	b = marshalUint32(b, p.Flags)
 
-	return b, nil
+	// the attributes announced by the flags follow the flags word
+	switch attrs := p.Attrs.(type) {
+	case nil:
+		return marshalFileStat(b, p.Flags, &FileStat{}), nil
+	case []byte:
+		return append(b, attrs...), nil
+	case *FileStat:
+		return marshalFileStat(b, p.Flags, attrs), nil
+	}
+
+	return marshal(b, p.Attrs), nil
 }
 
 func (p *sshFxpMkdirPacket) UnmarshalBinary(b []byte) error {
@@ -1022,6 +1033,7 @@ func (p *sshFxpMkdirPacket) UnmarshalBinary(b []byte) error {
 		// the attributes announced by the flags must be present
 		return err
 	}
+	p.Attrs = b
 	return nil
 }
 
